@@ -3,10 +3,12 @@
 //! Corpus: `programs/c26.txt` (C24 stage language + `loop { batch()/batch_lazy() … } -> all_iterations()`,
 //! nested up to depth 3, `defer_tick[_lazy]` and cycles inside loops), compiled by the real `dfir_syntax!`.
 //! Every loop body carries an iteration marker (tap `100 + loop id`, one record per run of the body).
+//! The same engine runs the loop programs of `programs/c24.txt` in mode c24 (ticks × loop blocks: `defer_tick[_lazy]`
+//! in root-level and nested loops under `run_available_sync`, `'tick` / `'static` operators inside loops).
 //!
 //! ops:  send v,v | send2 v,v -> ok      tick -> t=<tick> out=<taps>       avail -> n=<ticks> t=<tick> out=<taps>/<taps>…
 use std::cell::RefCell;
-use std::collections::BTreeMap;
+use std::collections::{BTreeMap, BTreeSet};
 use std::rc::Rc;
 
 use dfir_rs::scheduled::context::{DfirErased, verif_hooks};
@@ -34,11 +36,30 @@ struct LoopInfo {
     parent: Option<usize>,
 }
 
-fn analyse(dsl: &str) -> Vec<LoopInfo> {
+/// a token of the program text with the block it stands in
+#[derive(Clone, Debug)]
+struct Tok {
+    text: String,
+    /// 0 = outside every loop, 1 = directly in a root-level loop, …
+    depth: usize,
+    /// innermost enclosing loop
+    lp: Option<usize>,
+    /// brackets and the `X`/`Z` second-entry markers are not stages
+    stage: bool,
+}
+
+fn analyse(dsl: &str) -> (Vec<LoopInfo>, Vec<Tok>) {
     let toks: Vec<&str> = dsl.split(',').collect();
     let mut loops: Vec<LoopInfo> = Vec::new();
     let mut stack: Vec<usize> = Vec::new();
+    let mut out_toks: Vec<Tok> = Vec::new();
     for (k, t) in toks.iter().enumerate() {
+        let stage = !(t.starts_with('[') || *t == "]" || *t == "X" || *t == "Z");
+        if *t == "]" {
+            out_toks.push(Tok { text: t.to_string(), depth: stack.len().saturating_sub(1), lp: None, stage });
+        } else {
+            out_toks.push(Tok { text: t.to_string(), depth: stack.len(), lp: stack.last().copied(), stage });
+        }
         if let Some(a) = t.strip_prefix('[') {
             let extra = match toks.get(k + 1) {
                 Some(&"X") => Some(false),
@@ -69,12 +90,13 @@ fn analyse(dsl: &str) -> Vec<LoopInfo> {
             }
         }
     }
-    loops
+    (loops, out_toks)
 }
 
-struct Inst {
+pub struct Inst {
     dsl: String,
     loops: Vec<LoopInfo>,
+    toks: Vec<Tok>,
     df: DfirErased,
     tx: dfir_rs::tokio::sync::mpsc::UnboundedSender<i64>,
     tx2: dfir_rs::tokio::sync::mpsc::UnboundedSender<i64>,
@@ -103,16 +125,164 @@ fn show_taps(recs: &[(usize, i64)]) -> String {
 impl Inst {
     fn new(idx: usize) -> Inst {
         let (dsl, f) = C26_PROGS[idx];
+        Inst::build(dsl, f)
+    }
+    pub fn build(dsl: &str, f: fn(RxStream, RxStream, Out) -> DfirErased) -> Inst {
         let (tx, rx): (_, RxStream) = dfir_rs::util::unbounded_channel::<i64>();
         let (tx2, rx2): (_, RxStream) = dfir_rs::util::unbounded_channel::<i64>();
         let out: Out = Rc::new(RefCell::new(Vec::new()));
         let df = f(rx, rx2, out.clone());
-        Inst { dsl: dsl.to_string(), loops: analyse(dsl), df, tx, tx2, out, pending2: Vec::new(), hist: BTreeMap::new() }
+        let (loops, toks) = analyse(dsl);
+        Inst { dsl: dsl.to_string(), loops, toks, df, tx, tx2, out, pending2: Vec::new(), hist: BTreeMap::new() }
     }
     fn at(&self, tap: usize, t: u64) -> Vec<i64> {
         let mut v = self.hist.get(&(tap, t)).cloned().unwrap_or_default();
         v.sort();
         v
+    }
+    /// in record order
+    fn raw(&self, tap: usize, t: u64) -> Vec<i64> {
+        self.hist.get(&(tap, t)).cloned().unwrap_or_default()
+    }
+    /// how often the block `lp` ran in tick `t` (a depth-0 stage runs once per tick)
+    fn runs(&self, lp: Option<usize>, t: u64) -> usize {
+        match lp {
+            None => 1,
+            Some(id) => self.raw(100 + id, t).len(),
+        }
+    }
+
+    /// C24 oracles (ticks × loop blocks), independent of the Lean model: read off adjacent taps of one block.
+    fn tick_oracles(&self, rec: &mut Recorder, from: u64, to: u64, avail_calls: Option<u64>) {
+        let tap_of = |s: &str| -> Option<usize> { s.strip_prefix('T').and_then(|a| a.parse().ok()) };
+        let same_block = |w: &[Tok]| w.iter().all(|x| x.stage && x.lp == w[0].lp);
+        let in_loop = |d: usize| if d == 0 { "" } else { "-in-loop" };
+        for w in self.toks.windows(3) {
+            if !same_block(w) {
+                continue;
+            }
+            let (Some(a), Some(b)) = (tap_of(&w[0].text), tap_of(&w[2].text)) else { continue };
+            let (depth, lp) = (w[1].depth, w[1].lp);
+            let st = w[1].text.as_str();
+            for t in from..to {
+                match st {
+                    "D" | "L" if depth == 0 => {
+                        let expect = if t == 0 { vec![] } else { self.at(a, t - 1) };
+                        let sig = if st == "D" { "defer_tick-not-exactly-next-tick" } else { "defer_tick_lazy-not-exactly-next-tick" };
+                        rec.check(self.at(b, t) == expect, sig, &format!("prog={} tick={} entered at tick-1: {:?} left: {:?}", self.dsl, t, expect, self.at(b, t)));
+                    }
+                    "D" | "L" if depth == 1 => {
+                        // the handoff is swapped inside the root loop's `if` gate: what entered in one run of the loop
+                        // leaves in its next run; for the non-lazy one that next run is the next tick
+                        let ran = self.runs(lp, t) > 0;
+                        if st == "D" && t > 0 && !self.at(a, t - 1).is_empty() {
+                            rec.check(
+                                ran && self.at(b, t) == self.at(a, t - 1),
+                                "defer_tick-in-root-loop-not-exactly-next-tick",
+                                &format!("prog={} tick={} entered at tick-1: {:?} loop ran: {} left: {:?}", self.dsl, t, self.at(a, t - 1), ran, self.at(b, t)),
+                            );
+                        } else if ran {
+                            let prev = (0..t).rev().find(|&u| self.runs(lp, u) > 0);
+                            let expect = prev.map(|u| self.at(a, u)).unwrap_or_default();
+                            let sig = if st == "D" { "defer_tick-in-root-loop-wrong-delivery" } else { "defer_tick_lazy-in-root-loop-wrong-delivery" };
+                            rec.check(self.at(b, t) == expect, sig, &format!("prog={} tick={} previous run of the loop: {:?} entered then: {:?} left now: {:?}", self.dsl, t, prev, expect, self.at(b, t)));
+                        }
+                    }
+                    "Ut" => {
+                        let expect: Vec<i64> = self.at(a, t).into_iter().collect::<BTreeSet<_>>().into_iter().collect();
+                        rec.check(self.at(b, t) == expect, &format!("unique-tick-state-not-cleared{}", in_loop(depth)), &format!("prog={} tick={} in {:?} out {:?}", self.dsl, t, self.at(a, t), self.at(b, t)));
+                    }
+                    "Us" => {
+                        let mut earlier = BTreeSet::new();
+                        for u in 0..t {
+                            earlier.extend(self.at(a, u));
+                        }
+                        let expect: Vec<i64> = self.at(a, t).into_iter().collect::<BTreeSet<_>>().into_iter().filter(|x| !earlier.contains(x)).collect();
+                        rec.check(self.at(b, t) == expect, &format!("unique-static-state-not-kept{}", in_loop(depth)), &format!("prog={} tick={} in {:?} out {:?}", self.dsl, t, self.at(a, t), self.at(b, t)));
+                    }
+                    "Et" | "Es" => {
+                        let off: usize = if st == "Et" { 0 } else { (0..t).map(|u| self.raw(a, u).len()).sum() };
+                        let expect: Vec<i64> = self.raw(a, t).iter().enumerate().map(|(j, x)| x + 100 * (off + j) as i64).collect();
+                        let sig = if st == "Et" { "enumerate-tick-state-not-cleared" } else { "enumerate-static-state-not-kept" };
+                        rec.check(self.raw(b, t) == expect, &format!("{}{}", sig, in_loop(depth)), &format!("prog={} tick={} in {:?} out {:?} expected {:?}", self.dsl, t, self.raw(a, t), self.raw(b, t), expect));
+                    }
+                    _ => {}
+                }
+            }
+        }
+        for w in self.toks.windows(2) {
+            if !same_block(w) {
+                continue;
+            }
+            let (depth, lp) = (w[1].depth, w[1].lp);
+            // side-branch accumulators: `T a, F|R|G p tap`
+            if let (Some(a), Some(kind)) = (tap_of(&w[0].text), w[1].text.chars().next().filter(|c| "FRG".contains(*c))) {
+                let rest = &w[1].text[1..];
+                let (p, tap) = rest.split_at(1);
+                let Ok(tap) = tap.parse::<usize>() else { continue };
+                for t in from..to {
+                    let scope: Vec<i64> = if p == "t" { self.raw(a, t) } else { (0..=t).flat_map(|u| self.raw(a, u)).collect() };
+                    let n = self.runs(lp, t);
+                    let recs = self.raw(tap, t);
+                    let what = if p == "t" { "tick-state-not-cleared" } else { "static-state-not-kept" };
+                    let detail = format!("prog={} tick={} state should cover {:?}, runs of the block {}, recorded {:?}", self.dsl, t, scope, n, recs);
+                    match kind {
+                        'F' => {
+                            let sum: i64 = scope.iter().sum();
+                            rec.check(recs.len() == n, &format!("fold-emission-count{}", in_loop(depth)), &detail);
+                            rec.check(n == 0 || recs.last() == Some(&sum), &format!("fold-{}{}", what, in_loop(depth)), &detail);
+                        }
+                        'R' => {
+                            let sum: i64 = scope.iter().sum();
+                            let ok = if scope.is_empty() { recs.is_empty() } else { n == 0 || recs.last() == Some(&sum) };
+                            rec.check(ok, &format!("reduce-{}{}", what, in_loop(depth)), &detail);
+                        }
+                        _ => {
+                            let mut want: BTreeMap<i64, i64> = BTreeMap::new();
+                            for x in &scope {
+                                *want.entry(x % 2).or_default() += x;
+                            }
+                            let mut got: BTreeMap<i64, i64> = BTreeMap::new();
+                            for r in &recs {
+                                let e = got.entry(r / 100000).or_insert(i64::MIN);
+                                *e = (*e).max(r % 100000);
+                            }
+                            let ok = if n == 0 { recs.is_empty() } else { got == want };
+                            rec.check(ok, &format!("fold_keyed-{}{}", what, in_loop(depth)), &detail);
+                        }
+                    }
+                }
+            }
+            // run-until-idle must not stop while non-lazy deferred data is pending (outside loops or in a root-level loop)
+            if let Some(calls) = avail_calls {
+                if to > from && depth <= 1 && calls != u64::MAX {
+                    let last = to - 1;
+                    if let (Some(a), "D") = (tap_of(&w[0].text), w[1].text.as_str()) {
+                        rec.check(
+                            self.at(a, last).is_empty(),
+                            "run_available-stopped-with-non-lazy-deferred-data",
+                            &format!("prog={} last tick={} entered defer_tick: {:?}", self.dsl, last, self.at(a, last)),
+                        );
+                    }
+                    if let (Some(n), Some(b)) = (w[0].text.strip_prefix('C').and_then(|x| x.parse::<i64>().ok()), tap_of(&w[1].text)) {
+                        let pending: Vec<i64> = self.at(b, last).into_iter().filter(|x| *x < n).collect();
+                        rec.check(
+                            pending.is_empty(),
+                            "run_available-stopped-with-non-lazy-deferred-data",
+                            &format!("prog={} last tick={} items recirculated through defer_tick: {:?}", self.dsl, last, pending),
+                        );
+                    }
+                }
+            }
+        }
+        if let Some(calls) = avail_calls {
+            // nothing is sent during the call: with no non-lazy delay outside loops / in a root-level loop only the
+            // first tick runs (a non-lazy delay in a nested loop is drained by the `while` before the schedule check)
+            let nonlazy = self.toks.iter().any(|x| x.depth <= 1 && (x.text == "D" || x.text.starts_with('C')));
+            if !nonlazy && calls != u64::MAX {
+                rec.check(calls == 1, "run_available-ticked-again-on-lazy-data-alone", &format!("prog={} ticks run={}", self.dsl, calls));
+            }
+        }
     }
     fn collect(&mut self, from: u64, to: u64) -> Vec<String> {
         let recs: Vec<(usize, u64, i64)> = self.out.borrow_mut().drain(..).collect();
@@ -170,7 +340,7 @@ fn parse_vals(s: &str) -> Option<Vec<i64>> {
     s.split(',').map(|p| p.parse().ok()).collect()
 }
 
-fn exec_line(rec: &mut Recorder, inst: &mut Option<Inst>, line: &str) {
+pub fn exec_line(rec: &mut Recorder, inst: &mut Option<Inst>, line: &str) {
     let ws: Vec<&str> = line.split(' ').collect();
     let ans: Option<String> = match (ws.as_slice(), inst.as_mut()) {
         (["send", v], Some(i)) => parse_vals(v).map(|vs| {
@@ -204,6 +374,7 @@ fn exec_line(rec: &mut Recorder, inst: &mut Option<Inst>, line: &str) {
             let s2 = std::mem::take(&mut i.pending2);
             rec.check(after == before + 1, "tick-counter-not-plus-one", &format!("prog={}", i.dsl));
             i.oracles(rec, before, after, &s2);
+            i.tick_oracles(rec, before, after, None);
             rec.count("tick");
             Some(format!("t={} out={}", after, outs.join("/")))
         }
@@ -233,8 +404,17 @@ fn exec_line(rec: &mut Recorder, inst: &mut Option<Inst>, line: &str) {
             let after: u64 = i.df.current_tick().into();
             let outs = i.collect(before, after);
             let s2 = std::mem::take(&mut i.pending2);
+            rec.check(
+                after == before + ticks.get() && ticks.get() >= 1,
+                "tick-counter-not-plus-one",
+                &format!("prog={} before={} after={} closure calls={}", i.dsl, before, after, ticks.get()),
+            );
             i.oracles(rec, before, after, &s2);
+            i.tick_oracles(rec, before, after, Some(ticks.get()));
             rec.count("avail");
+            if after - before > 1 {
+                rec.count("avail-multi-tick");
+            }
             rec.count_n("avail-ticks", after - before);
             Some(format!("n={} t={} out={}", after - before, after, outs.join("/")))
         }
@@ -261,6 +441,42 @@ fn prog_index(tag: &str) -> Option<usize> {
 fn gen_vals(rng: &mut Rng) -> String {
     let n = rng.range(1, 4);
     (0..n).map(|_| rng.below(6).to_string()).collect::<Vec<_>>().join(",")
+}
+
+fn stateful(dsl: &str) -> bool {
+    dsl.split(',').any(|t| t.len() >= 2 && "UEFRG".contains(&t[..1]))
+}
+
+/// the op lines of one generated case for a loop program (without the closing `avail`)
+pub fn gen_lines(rec: &mut Recorder, rng: &mut Rng, dsl: &str) -> Vec<String> {
+    let uses2 = dsl.contains(",X,") || dsl.contains(",Z,");
+    let mut ls = Vec::new();
+    if stateful(dsl) {
+        // at least three ticks that each see fresh input: 'tick state must restart, 'static state must carry over
+        rec.count("stateful-three-fed-ticks");
+        for _ in 0..3 {
+            ls.push(format!("send {}", gen_vals(rng)));
+            ls.push(if rng.chance(1, 3) { "avail".to_string() } else { "tick".to_string() });
+        }
+    }
+    for _ in 0..rng.range(3, 9) {
+        let l = match rng.below(10) {
+            0..=2 => format!("send {}", gen_vals(rng)),
+            3 if uses2 => format!("send2 {}", gen_vals(rng)),
+            3..=6 => "tick".to_string(),
+            7..=8 => "avail".to_string(),
+            _ => {
+                if rng.chance(1, 8) {
+                    rec.count("malformed");
+                    "send x".to_string()
+                } else {
+                    "tick".to_string()
+                }
+            }
+        };
+        ls.push(l);
+    }
+    ls
 }
 
 pub fn main(args: &Args) {
@@ -295,24 +511,9 @@ pub fn main(args: &Args) {
         let mut rng = root.fork(n);
         let idx = (n as usize) % C26_PROGS.len();
         let mut inst = Some(Inst::new(idx));
-        let uses2 = C26_PROGS[idx].0.contains(",X,") || C26_PROGS[idx].0.contains(",Z,");
         rec.case(n, &format!("prog={}", C26_PROGS[idx].0));
         rec.count(&format!("prog-{idx:02}"));
-        for _ in 0..rng.range(3, 9) {
-            let l = match rng.below(10) {
-                0..=2 => format!("send {}", gen_vals(&mut rng)),
-                3 if uses2 => format!("send2 {}", gen_vals(&mut rng)),
-                3..=6 => "tick".to_string(),
-                7..=8 => "avail".to_string(),
-                _ => {
-                    if rng.chance(1, 8) {
-                        rec.count("malformed");
-                        "send x".to_string()
-                    } else {
-                        "tick".to_string()
-                    }
-                }
-            };
+        for l in gen_lines(&mut rec, &mut rng, C26_PROGS[idx].0) {
             exec_line(&mut rec, &mut inst, &l);
         }
         exec_line(&mut rec, &mut inst, "avail");
